@@ -49,6 +49,8 @@ type Prop struct {
 	Harness     func(cfg *Cfg) func(x *mc.Exec)
 	// Join is called by the driver with the per-level case tables (C18).
 	Join func(tables map[int]map[string]string) []mc.Violation
+	// Extra runs once in the driver after the exploration (C17: the free-running race pass).
+	Extra func(cfg *Cfg) (map[string]interface{}, []mc.Violation)
 	// Levels filters the acceleration levels to run (nil = all runnable).
 	Levels func(avail []int, thorough bool) []int
 }
